@@ -41,6 +41,7 @@ Record gmethod := {
   g_explicit : bool; g_dirty : bool; g_update : bool;
   g_conf : mconf;
   g_origin : list N;
-  g_body : option body
+  g_body : option body;
+  g_types : list ty        (* every type the emitted body and signature render (xtype TypeAsJen / ZeroValue): decides the imports *)
 }.
 Definition table := list gmethod.
